@@ -409,6 +409,13 @@ fn gen_c12(cfg: &GenCfg, rng: &mut Rng, w: &mut dyn Write, kind: &str) {
                     writeln!(w, "satcount f{} {} {} cache=shared", f, vars, ty).unwrap();
                 }
             }
+            if f % 8 == 5 {
+                // the floating-point type scales its intermediate values around vars = -MIN_EXP = 1021
+                for vars in [1019u32, 1020, 1021, 1022, 1023, 1024, 1025] {
+                    writeln!(w, "satcount f{} {} f64", f, vars).unwrap();
+                    writeln!(w, "satcount f{} {} f64 cache=shared", f, vars).unwrap();
+                }
+            }
             if f % 64 == 40 && !zbdd(kind) {
                 // reorder between uses of the shared cache: reordering frees and recycles node ids
                 // without an explicit gc, so a cache that survives it would serve counts of other
@@ -1618,6 +1625,91 @@ fn gen_bggc(cfg: &GenCfg, rng: &mut Rng, w: &mut dyn Write, kind: &str) {
     }
 }
 
+/// C16 (and C20 on the other backends): variables created with names on every diagram kind, in
+/// several batches, with rejected calls (duplicate first / duplicate after fresh names / empty
+/// list), through `add_named_vars` and through `add_named_vars_from_map` (also on an empty
+/// manager: the specialised fast path), each followed by operations that depend on the kind's own
+/// per-level bookkeeping (constants, `var`, negation-based connectives, cube picking).
+/// Oracle-only stream: the tree-level models do not know names.
+fn gen_names(cfg: &GenCfg, rng: &mut Rng, w: &mut dyn Write, kind: &str) {
+    let cases = if cfg.thorough { 400 } else { 60 } * cfg.scale;
+    for c in 0..cases {
+        writeln!(w, "case names-{}-{}", kind, c).unwrap();
+        writeln!(w, "mgr nodes=65536 cache=64 threads={} vars=0", rng.pick(&[1u32, 2])).unwrap();
+        let mut n = 0u32;
+        let mut used: Vec<String> = Vec::new();
+        let mut fresh = 0u32;
+        let mut pool: Vec<String> = Vec::new();
+        let steps = rng.range(3, 7);
+        for s in 0..steps {
+            // a batch of names: fresh ones, unnamed ones, sometimes a duplicate (first, middle or last)
+            let len = if rng.chance(1, 8) { 0 } else { rng.range(1, 3) as usize };
+            let mut batch: Vec<String> = Vec::new();
+            for _ in 0..len {
+                if rng.chance(1, 4) {
+                    batch.push("-".into());
+                } else {
+                    fresh += 1;
+                    batch.push(format!("n{}", fresh));
+                }
+            }
+            if !used.is_empty() && rng.chance(1, 3) {
+                let d = rng.pick(&used).clone();
+                let pos = rng.below(batch.len() as u64 + 1) as usize;
+                batch.insert(pos, d);
+            }
+            let op = if rng.chance(1, 2) || (s == 0 && rng.chance(1, 2)) { "frommap" } else { "addnamed" };
+            writeln!(w, "{} {}", op, batch.join(" ")).unwrap();
+            // bookkeeping of the generator: names before the first duplicate are added
+            let mut seen_in_batch: Vec<String> = Vec::new();
+            let mut added = 0u32;
+            let mut rejected_by_map = false;
+            for nm in &batch {
+                if nm != "-" && seen_in_batch.contains(nm) && op == "frommap" {
+                    rejected_by_map = true;
+                    break;
+                }
+                if nm != "-" && (used.contains(nm) || seen_in_batch.contains(nm)) {
+                    break;
+                }
+                if nm != "-" {
+                    seen_in_batch.push(nm.clone());
+                }
+                added += 1;
+            }
+            if rejected_by_map {
+                added = 0;
+                seen_in_batch.clear();
+            }
+            used.extend(seen_in_batch);
+            n += added;
+            if n > 7 {
+                break;
+            }
+            // the kind's own bookkeeping after the (possibly rejected, possibly empty) call
+            writeln!(w, "const t{} T", s).unwrap();
+            writeln!(w, "const f{} F", s).unwrap();
+            writeln!(w, "op nt{} not t{}", s, s).unwrap();
+            if n > 0 {
+                let v = rng.below(n as u64);
+                writeln!(w, "var v{}_{} {}", s, v, v).unwrap();
+                writeln!(w, "notvar nv{}_{} {}", s, v, v).unwrap();
+                pool.push(format!("v{}_{}", s, v));
+                pool.push(format!("nv{}_{}", s, v));
+                for j in 0..3 {
+                    let name = format!("g{}_{}", s, j);
+                    writeln!(w, "op {} {} {} {}", name, rng.pick(&BIN_OPS), rng.pick(&pool), rng.pick(&pool)).unwrap();
+                    writeln!(w, "pickvec {} {:b}", name, rng.below(1 << n)).unwrap();
+                    pool.push(name);
+                }
+                writeln!(w, "audit").unwrap();
+            }
+        }
+        writeln!(w, "dropall").unwrap();
+        writeln!(w, "gc").unwrap();
+    }
+}
+
 fn generate(cfg: &GenCfg, rng: &mut Rng, w: &mut dyn Write) {
     if cfg.extra.contains_key("dump-after-order") {
         // for the store-level reordering model, which predicts the store (ids aside) right after a
@@ -1664,6 +1756,7 @@ fn generate_inner(cfg: &GenCfg, rng: &mut Rng, w: &mut dyn Write) {
         "c07" => gen_c07(cfg, rng, w, &kind),
         "c08" => gen_c08(cfg, rng, w, &kind),
         "bggc" => gen_bggc(cfg, rng, w, &kind),
+        "names" => gen_names(cfg, rng, w, &kind),
         "c14" => {
             gen_c14(cfg, rng, w, &kind);
             gen_c14_sparse(cfg, rng, w, &kind);
